@@ -17,14 +17,17 @@ impl Prop for C11Prop {
         "C11"
     }
     fn rule(&self) -> String {
-        "Streams (proptest tapes): prog / progbig = grammar-derived ASCII-only programs with comments, use_tabs=false, other settings generated; width pairs W1 < W2 from {10,15,20,30,40,60,80,100,120,160,200} and random 8..250. Oracles: (a) if every line of format_W2(x) has <= W1 bytes then format_W1(x) == format_W2(x); (b) lines(format_W2(x)) <= lines(format_W1(x)); (c) if every line of format_W1(x) has <= W1 bytes then every line of format_W2(x) has <= W2. Width = bytes = chars = columns on this domain. Runs where the wrapper logged 'Iteration limit reached' are classified separately. Non-trivial = the two outputs differ, or premise (a) holds with a wrapped line; distinct by hash of (input, configuration, W2)."
+        "Streams (proptest tapes): prog / progbig = grammar-derived ASCII-only programs with comments, use_tabs=false, other settings generated; width pairs W1 < W2 from {10,15,20,30,40,60,80,100,120,160,200} and random 8..250; stream tight: W1 within two columns of the length of a line of the wide result and W2 = W1 + {1,2,3,10,40} (boundary-directed). Oracles: (a) if every line of format_W2(x) has <= W1 bytes then format_W1(x) == format_W2(x); (b) lines(format_W2(x)) <= lines(format_W1(x)); (c) if every line of format_W1(x) has <= W1 bytes then every line of format_W2(x) has <= W2. Width = bytes = chars = columns on this domain. Runs where the wrapper logged 'Iteration limit reached' are classified separately. Non-trivial = the two outputs differ, or premise (a) holds with a wrapped line; distinct by hash of (input, configuration, W2)."
             .into()
     }
     fn assumptions(&self) -> Vec<String> {
         vec!["ASCII-only lexemes and soft tabs, so that the implementation's width measure and the user's coincide".into()]
     }
     fn streams(&self, tier: Tier) -> Vec<Stream> {
-        wf::wf_streams(tier, 2)
+        let q = tier == Tier::Quick;
+        let mut v = wf::wf_streams(tier, 2);
+        v.push(Stream::random("tight", if q { 1500 } else { 20000 }, 700));
+        v
     }
     fn generate(&self, stream: &str, t: &mut Tape) -> Option<Case> {
         let mut cfg = Cfg::gen_unsaturated(t);
@@ -37,12 +40,25 @@ impl Prop for C11Prop {
         if w1 > w2 {
             std::mem::swap(&mut w1, &mut w2);
         }
-        cfg.wrap_column = w1;
         let opts = crate::gen::prog::Opts { ascii_only: true, ..Default::default() };
-        let w = wf::build(t, wf::fuel_for(stream), opts, None, None)?;
+        let w = wf::build(t, if stream == "tight" { 60 } else { wf::fuel_for(stream) }, opts, None, None)?;
         if !w.input.is_ascii() {
             return None;
         }
+        if stream == "tight" {
+            // boundary-directed widths: W1 within two columns of the length of a line of the
+            // result at a generous width, W2 a little wider
+            cfg.wrap_column = 250;
+            let wide = format_with(&cfg, &w.input);
+            let lines: Vec<&str> = wide.lines().filter(|l| l.len() >= 10).collect();
+            if lines.is_empty() {
+                return None;
+            }
+            let l = lines[t.below(lines.len() as u32) as usize].len() as u32;
+            w1 = (l + t.below(4)).saturating_sub(2).max(8);
+            w2 = w1 + *t.pick(&[1, 1, 2, 3, 10, 40]);
+        }
+        cfg.wrap_column = w1;
         let mut c = wf::case_of(&w, cfg.clone(), stream);
         c.cfg2 = Some(Cfg { wrap_column: w2, ..cfg });
         Some(c)
@@ -74,11 +90,13 @@ impl Prop for C11Prop {
         }
         let (n1, n2) = (o1.split('\n').count(), o2.split('\n').count());
         if n2 > n1 {
+            let pct = (n2 - n1) * 100 / n1.max(1);
             return Outcome::Fail(
                 Failure::new(
                     "more-lines-when-wider",
                     format!("wrap_column={w2} gives {n2} lines, wrap_column={w1} only {n1}"),
                 )
+                .fact(if pct <= 35 { "increase<=35%" } else { "increase>35%" })
                 .facts(&logf),
             );
         }
